@@ -328,9 +328,8 @@ def _qid():
 
 
 def IntRangeSet(lo, hi):
-  """{i | lo <= i < hi} as a z3 set."""
-  i = z3.Int('i!rs%d' % _qid())
-  return z3.Lambda([i], z3.And(i >= N(lo), i < N(hi)))
+  """{i | lo <= i < hi} as a z3 set (named term with instantiated axioms)."""
+  return cardlemmas.range_set(N(lo), N(hi))
 
 
 def T(*xs):
